@@ -45,18 +45,20 @@ static void spec_step(int site) {
     else { VASSERT(W == 0 && G.took && !G.scheduled && !G.reset, "G: C11 a raiser resets the signal only between taking the waiter and handing it to the scheduler (a later store would erase a new registration)"); G.reset = 1; }
   }
 }
+#include "C11/signal_env.h"
+static int enc(fiber_t* w) { return w == 0 ? W_NO : w == RAISEDF ? W_RAISED : W_F; }
 static void spec_env(int site) {
+  /* the other role(s) make any number of steps: the waiter word becomes any value the role's environment predicate allows (signal_env.h;
+     lemmas.c shows these predicates contain every step the other role's guarantee permits) */
+  unsigned k = verif_pick(3); fiber_t* w2 = k == 0 ? 0 : k == 1 ? RAISEDF : (G.waiter_role ? &ME : &F1);
   if (G.waiter_role) {
-    /* raisers: NO -> RAISED, me -> RAISED (-> NO by the raiser that took me; I am woken only through the manager, i.e. inside yield) */
-    if (!G.registered || G.yields) { if (W == 0 && verif_bool()) W = RAISEDF; }
-    /* (registered and not yet parked: a raiser may already have taken me: RAISED, or RAISED then reset to NO) */
-    else if (verif_bool()) W = verif_bool() ? RAISEDF : 0;
+    VASSUME(wait_env_allows(G.registered && !G.yields, enc(W), enc(w2)));
+    VASSUME(w2 != &ME || W == &ME);          /* nobody but me registers me */
+    W = w2;
   } else {
-    if (G.took && !G.scheduled) {
-      /* F1 is asleep or going to sleep; other raisers can only re-raise; the marker appears once F1 has switched out */
-      if (W == 0 && verif_bool()) W = RAISEDF;
-      if (verif_bool()) F1.scratch = FIBER_SIGNAL_READY_TO_WAKE;
-    } else if (verif_bool()) { unsigned k = verif_pick(3); W = k == 0 ? 0 : k == 1 ? RAISEDF : &F1; }
+    VASSUME(raise_env_allows(G.took && !G.scheduled, enc(W), enc(w2)));
+    W = w2;
+    if (G.took && !G.scheduled && verif_bool()) F1.scratch = FIBER_SIGNAL_READY_TO_WAKE;   /* the marker appears once F1 has switched out */
   }
 }
 static void spec_read(int site, void* addr) {
